@@ -128,7 +128,7 @@ def run(ck):
         guards = [g for g in T.switches_on_discr_of(b, lambda pl: pl["l"] == ret_local and not pl["p"]) if g != sw and g in dl.blocks]
         eq_guards = []
         for cs in T.calls(b, name=("eq", "ne"), trait="PartialEq"):
-            if cs.bb in dl.blocks and any(("local", ret_local) in T.roots_of(b, a) or any(r == ("local", ret_local) for r, _ in b.resolve(a)) for a in cs.args):
+            if cs.bb in dl.blocks and any(T.refers_to_local(b, a, ret_local) for a in cs.args):
                 eq_guards.append(cs)
         ok = False
         for g in guards:
@@ -137,7 +137,15 @@ def run(ck):
         for cs in eq_guards:
             for s2, mode in T.call_result_switches(b, cs.bb):
                 want = cs.name == "eq"
-                if T.agg_variant(b, cs.args[1]) | T.agg_variant(b, cs.args[0]) >= {(PA, "Continue")} and T.reachable_only_via(b, i, T.edges_of_value(b, s2, want), frm=[dl.pe.to], barrier=[dl.header]):
+                consts = T.agg_variant(b, cs.args[1]) | T.agg_variant(b, cs.args[0])
+                is_cont = (PA, "Continue") in consts or any(v[0] == "const" and "Continue" in str(v[1]) for v in consts) or any("Continue" in (a.get("k", {}).get("s", "")) for a in cs.args)
+                if not is_cont:
+                    # promoted constant `&PostAction::Continue`
+                    for a in cs.args:
+                        for r_, p_ in b.resolve(a):
+                            if r_[0] == "const" and "promoted" in str(r_[1]):
+                                is_cont = True
+                if is_cont and T.reachable_only_via(b, i, T.edges_of_value(b, s2, want), frm=[dl.pe.to], barrier=[dl.header]):
                     ok = True
         ck.verdict(ok, "2", "T4-guarded-by", b, "merge:ret=pending/guard:ret==Continue", "the deferred action overrides the returned one only on the edge where the source returned Continue", "the deferred action is merged without the returned action being tested for Continue (an explicit non-Continue return must take precedence)", site=b.where(i))
 
